@@ -245,8 +245,9 @@ int main(int argc, char **argv)
         }
     }
     /* "any finite number": long all-EINTR prefixes */
-    { static const long LONGS[] = {1000, 100000};
-      for (k = 0; k < 2; ++k) for (e = 0; e < 2; ++e, ++idx) if (mine(&a, idx)) { run_script(&a, idx, NULL, LONGS[k], 1, e ? E_EPERM : E_OK, 0); ++n_long; } }
+    { static const long LONGS[] = {1000, 100000, 16777221L, 4294967301L};       /* ..., 2^24+5, 2^32+5 (thorough: counters of any width) */
+      int nl = a.thorough ? 4 : 3;
+      for (k = 0; k < nl; ++k) for (e = 0; e < 2; ++e, ++idx) if (mine(&a, idx)) { run_script(&a, idx, NULL, LONGS[k], 1, e ? E_EPERM : E_OK, 0); ++n_long; } }
     emit_stat("evaluations", n_eval); emit_stat("scripts_ending_in_success", n_success); emit_stat("scripts_ending_in_permanent_error", n_permanent);
     emit_stat("os_entropy_calls_observed", n_os_calls); emit_stat("scripts_through_prng_init", n_prng); emit_stat("long_prefix_scripts", n_long);
     emit_stat("scripts_where_os_call_count_differs_from_script_length", n_count_differs); emit_stat("fd_census_comparisons", n_fd_census); emit_stat("prng_usability_runs_after_fault", n_usable);
